@@ -21,7 +21,11 @@ Record zstate := {
   z_unsub : bool
 }.
 
-Definition zstate0 : zstate := {| z_src := true; z_take_alive := true; z_take_hits := 0; z_func := true; z_unsub := false |}.
+(* `connected`: false for an input that never holds the observer (never(): its subscription is `()`,
+   closed from the start) or a subject that had terminated before the subscription was made *)
+Definition zstate1 (connected : bool) : zstate :=
+  {| z_src := connected; z_take_alive := true; z_take_hits := 0; z_func := true; z_unsub := false |}.
+Definition zstate0 : zstate := zstate1 true.
 
 (* TakeObserver (ops/take.rs) *)
 Definition take_step (n : nat) (s : zstate) (e : ev) : zstate * list ev :=
